@@ -642,25 +642,13 @@ class _zbl(_Potential_Function_Base):
     :param z1: Atomic number of species i
     :param z2: Atomic number of species j
     :return: Derivative of function"""
-    v = -14.39942*z1*z2*(self.Ck1*math.exp(2.13503407300877*r*(z1**0.23 + z2**0.23)\
-        * (self.Bk2 + self.Bk3 + self.Bk4))\
-        + self.Ck2*math.exp(2.13503407300877*r*(z1**0.23 + z2**0.23)\
-        *(self.Bk1 + self.Bk3 + self.Bk4))\
-        + self.Ck3*math.exp(2.13503407300877*r*(z1**0.23 + z2**0.23)\
-        *(self.Bk1 + self.Bk2 + self.Bk4))\
-        + self.Ck4*math.exp(2.13503407300877*r*(z1**0.23 + z2**0.23)\
-        *(self.Bk1 + self.Bk2 + self.Bk3))\
-        + 2.13503407300877*r*(z1**0.23 + z2**0.23)\
-        *(self.Bk1*self.Ck1*math.exp(2.13503407300877\
-        *r*(z1**0.23 + z2**0.23)*(self.Bk2 + self.Bk3 + self.Bk4))\
-        + self.Bk2*self.Ck2*math.exp(2.13503407300877*r*(z1**0.23 + z2**0.23)\
-        *(self.Bk1 + self.Bk3 + self.Bk4))\
-        + self.Bk3*self.Ck3*math.exp(2.13503407300877*r*(z1**0.23 + z2**0.23)\
-        *(self.Bk1 + self.Bk2 + self.Bk4)) + self.Bk4*self.Ck4\
-        *math.exp(2.13503407300877*r*(z1**0.23 + z2**0.23)\
-        *(self.Bk1 + self.Bk2 + self.Bk3))))\
-        *math.exp(-2.13503407300877*r*(z1**0.23 + z2**0.23)\
-        *(self.Bk1 + self.Bk2 + self.Bk3 + self.Bk4))/r**2
+    # Written with decaying exponentials only: the previous (sympy generated) expression
+    # multiplied growing by decaying exponentials and overflowed for heavy species at large r.
+    k = 2.13503407300877*(z1**0.23 + z2**0.23)
+    v = 0.0
+    for Ck, Bk in ((self.Ck1, self.Bk1), (self.Ck2, self.Bk2), (self.Ck3, self.Bk3), (self.Ck4, self.Bk4)):
+      v += Ck*(1.0 + k*Bk*r)*math.exp(-k*Bk*r)
+    v = -14.39942*z1*z2*v/r**2
     return v
 
   def deriv2(self, r, z1, z2):
